@@ -12,3 +12,15 @@ add("C09", "model_checking",
     "both shipped feedback mappers over every defined result constant, and further total-function harnesses (see evidence.harnesses). A reachable panic/nil-deref/index error or an undefined result is the violation; each is replayed natively before being reported.",
     "Bounds and stubs per harness are in evidence (coverage.bounds, coverage.stubs). Whole-engine schedules, libp2p internals and OS resource exhaustion are outside the claim; option-construction (K7) and mirror end-to-end (K8) parts are listed in evidence only when their harnesses ran.",
     "symbolic execution of go/ssa + SMT (z3), per-unit totality harnesses", "§5 C09")
+
+add("C06", "model_checking",
+    "The real SetAvailablePower/SetPrevotePowers/SetPrecommitPowers run on real signature proofs for every assignment of signer subsets to the targets nil/A/B (each target absent or signed by any subset, so any validator may sign several targets), with full-width symbolic powers and every map iteration order; "
+    "z3/cvc5 show the reported numbers equal the oracle recomputed from the signer sets (available = sum, block = sum of distinct signers, total counts each validator once, most-voted = least target among maximal power) on every path.",
+    "Bounds: 2 validators (quick) / 3 (thorough), 3 targets. Assumes the sum of powers does not overflow 64 bits. Signature verification is stubbed to true (accounting, not authenticity). The kernel/state-machine consequences (H2) are listed in evidence only when their harnesses ran.",
+    "symbolic execution of go/ssa + SMT; structure (signer sets, map order) enumerated, powers symbolic", "§5 C06")
+
+add("C01", "model_checking",
+    "The commit rule is driven through the real kernel entry addPrecommit (and everything it calls: vote summary, ByzantineMajority, ShiftVotingToCommitting, committed-header store, mirror store) from the genesis state produced by the real loadInitialVotingView, for every assignment of precommit signer subsets to nil/A/B, every subset of known proposed headers and full-width symbolic powers; "
+    "the solver shows that whenever the node then treats a header as committed, the hash is non-nil, proposed, stored, and signed by more than 2/3 of the total power (128-bit arithmetic).",
+    "Bounds: 3 validators, 3 targets, one precommit message from genesis (+ header deliveries). ByzantineMajority/Minority are replaced by their specification (proven by C18) to keep queries linear. Signatures inside builder proofs are assumed authentic (admission is C05). BLS scheme outside.",
+    "symbolic execution of go/ssa + SMT (cvc5 bv-as-int / z3 portfolio)", "§5 C01")
